@@ -125,7 +125,11 @@ class CallbackHandler(object):
 
         res = True
 
-        for c in self.get_callbacks(key):
+        # Iterate on a copy: a callback may remove itself or another callback
+        for c in list(self.get_callbacks(key)):
+            if c not in self.get_callbacks(key):
+                # Removed by a previous callback
+                continue
             res = c(*args)
             if res is not True:
                 yield res
